@@ -258,14 +258,14 @@ pub fn gen80(tier: &str, r: &mut Rng, emit: &mut dyn FnMut(Vec<u64>)) {
     for szx in 0..7u8 {
         let sz = 16usize << szx;
         let m = (sz as u64 + 60).min(1280);
-        let lens: Vec<usize> = if thorough || szx < 3 { (0..=3 * sz + 1).collect() } else { vec![0, 1, sz - 1, sz, sz + 1, 2 * sz - 1, 2 * sz, 2 * sz + 1, 3 * sz, 3 * sz + 1] };
+        let lens: Vec<usize> = if (thorough && szx < 5) || szx < 3 { (0..=3 * sz + 1).collect() } else { vec![0, 1, sz - 1, sz, sz + 1, 2 * sz - 1, 2 * sz, 2 * sz + 1, 3 * sz, 3 * sz + 1] };
         for blen in lens { one(r, blen, m, None, None, 1, emit); if blen % 5 == 0 || blen <= 1 { one(r, blen, 1152, Some(szx), None, 1, emit); } }
     }
     for blen in [5000usize, 20000] { for pref in [None, Some(6u8)] { one(r, blen, 1152, pref, None, 8, emit); } }
     one(r, 5000, 1152, Some(3), None, 8, emit);
     // two transfers in a row on the same resource and endpoint (the second without / with early negotiation):
     // nothing of the first may leak into the second
-    for _ in 0..(if thorough { 3000 } else { 200 }) {
+    for _ in 0..(if thorough { 1000 } else { 200 }) {
         let m = r.pick(&[76u64, 140, 300, 1152]);
         let (o1, o2) = (rand_reply_opts(r), rand_reply_opts(r));
         let m = m.max(min_budget(&o1, 8)).max(min_budget(&o2, 8));
@@ -302,7 +302,7 @@ pub fn gen80(tier: &str, r: &mut Rng, emit: &mut dyn FnMut(Vec<u64>)) {
         emit(write_case(m, 0, &steps));
     }
     // early negotiation x budgets x mid-transfer reduction
-    for _ in 0..(if thorough { 20_000 } else { 500 }) {
+    for _ in 0..(if thorough { 4_000 } else { 500 }) {
         let blen = r.pick(&[0usize, 1, 15, 16, 17, 100, 500, 1023, 1024, 1025, 3000]);
         let blen = if r.chance(1, 2) { blen } else { r.below(2500) as usize };
         let m = if r.chance(1, 2) { r.pick(&[64u64, 80, 128, 256, 512, 1024, 1152, 1280]) } else { 60 + r.below(1221) };
@@ -386,7 +386,7 @@ pub fn gen90(tier: &str, r: &mut Rng, emit: &mut dyn FnMut(Vec<u64>)) {
 // ------------------------------------------------------------------ suite 100
 pub fn gen100(tier: &str, r: &mut Rng, emit: &mut dyn FnMut(Vec<u64>)) {
     let thorough = tier == "thorough";
-    for _ in 0..(if thorough { 60_000 } else { 2_500 }) {
+    for _ in 0..(if thorough { 15_000 } else { 2_500 }) {
         let mut first = ReqSpec::get(&["r"]);
         first.token = r.bytes_below(9);
         let pl = r.pick(&[0usize, 1, 3, 20, 100]);
@@ -448,7 +448,7 @@ pub fn gen100(tier: &str, r: &mut Rng, emit: &mut dyn FnMut(Vec<u64>)) {
 pub fn gen110(tier: &str, r: &mut Rng, emit: &mut dyn FnMut(Vec<u64>)) {
     let thorough = tier == "thorough";
     let keys: [(u64, u64, &[&str]); 4] = [(7, 3, &["a"]), (7, 1, &["a"]), (8, 3, &["a"]), (7, 2, &["a", "b"])];
-    for _ in 0..(if thorough { 150_000 } else { 2_500 }) {
+    for _ in 0..(if thorough { 12_000 } else { 2_500 }) {
         let m = match r.below(5) { 0 => r.below(65), 1 => 1152, 2 => r.below(5001), 3 => r.pick(&[0u64, 12, 16, 17, 28, 29, 1280, 1281]), _ => 20 + r.below(60) };
         let n = 1 + r.below(6);
         let mut steps = Vec::new();
@@ -523,7 +523,7 @@ pub fn gen120(tier: &str, r: &mut Rng, emit: &mut dyn FnMut(Vec<u64>)) {
         vec![(7, 1, vec!["x"]), (7, 2, vec!["x"]), (7, 1, vec!["x", ""])],
     ];
     for (vi, keyset) in variants.iter().enumerate() {
-        for round in 0..(if thorough { 6 } else { 2 }) {
+        for round in 0..(if thorough { 4 } else { 2 }) {
             let mut transfers: Vec<Vec<Step>> = Vec::new();
             for (t, (src, code, path)) in keyset.iter().enumerate() {
                 let mut q = ReqSpec::get(&path[..]); q.code = *code; q.token = vec![t as u8 + 1, round as u8]; q.mid = (100 * (t + 1)) as u16;
@@ -541,7 +541,7 @@ pub fn gen120(tier: &str, r: &mut Rng, emit: &mut dyn FnMut(Vec<u64>)) {
             }
             let lens: Vec<usize> = transfers.iter().map(|t| t.len()).collect();
             let mut all = Vec::new();
-            interleavings(&lens, &mut Vec::new(), &mut vec![0; lens.len()], &mut all, if thorough { 4000 } else { 300 });
+            interleavings(&lens, &mut Vec::new(), &mut vec![0; lens.len()], &mut all, if thorough { 1500 } else { 300 });
             let stride = if thorough { 1 } else { (all.len() / 60).max(1) };
             for (i, order) in all.iter().enumerate() {
                 if i % stride != 0 && i + 1 != all.len() { continue; }
